@@ -2137,6 +2137,30 @@ def m_int_arith(kind, op):
         if type(a) is not I or type(b) is not I:
             raise Unsupported(kind)
         if kind == "wrapping":
+            tlo_, thi_ = E.prog.ty(dest_ty).int_range()
+            la_, ha_ = st.itv[a.vid]
+            lb_, hb_ = st.itv[b.vid]
+            if op == "Sub" and tlo_ == 0 and la_ - hb_ < 0 <= ha_ - lb_ and len(st.part) < E.ctx.max_parts_branch:
+                # an unsigned wrapping subtraction that may or may not wrap: the two cases apart (no wrap: a - b; wrap: a - b + 2^W),
+                # so that `s.min(s.wrapping_sub(q))` and similar branch-free selections are followed exactly
+                outs = []
+                s1 = st.copy()
+                try:
+                    E.assume_cmp(s1, "Ge", a.vid, b.vid)
+                    outs.append((E.binop(s1, "Sub", a, b, dest_ty, False), s1))
+                except Diverge:
+                    pass
+                s2 = st
+                try:
+                    E.assume_cmp(s2, "Lt", a.vid, b.vid)
+                    d_ = E.binop(s2, "Sub", b, a, dest_ty, False)                     # b - a in [1, ..]
+                    top = E.ctx.const_int(s2, thi_, dest_ty)
+                    w_ = E.binop(s2, "Sub", top, d_, dest_ty, False)                   # 2^W - 1 - (b - a)
+                    outs.append((E.binop(s2, "Add", w_, E.ctx.const_int(s2, 1, dest_ty), dest_ty, False), s2))
+                except Diverge:
+                    pass
+                if outs:
+                    return outs
             return ret1(E.binop(st, op, a, b, dest_ty, False), st)
         t = E.prog.ty(dest_ty)
         ity = dest_ty if kind == "saturating" else t.adt["variants"][SOME]["fields"][0]["ty"]
@@ -2210,6 +2234,28 @@ def m_option_eq(E, st, fr, bi, callee, args, dest_ty):
 def m_option_from_residual(E, st, fr, bi, callee, args, dest_ty):
     # `?` on an Option: the residual Option<Infallible> can only be None
     return ret1(En({NONE: ()}), st)
+
+
+def m_from_bool(E, st, fr, bi, callee, args, dest_ty):
+    """<uN as From<bool>>::from(b): the branch-free idiom `(cond) as int` written as a call — the two cases apart, with the
+    condition decided in each"""
+    b = args[0]
+    if type(b) is not I:
+        return None
+    lo, hi = st.itv[b.vid]
+    if lo == hi:
+        return ret1(E.ctx.const_int(st, lo, dest_ty), st)
+    outs = []
+    for val in (0, 1):
+        s2 = st.copy() if val == 0 else st
+        try:
+            E.set_itv(s2, b.vid, val, val)
+            if len(st.part) < E.ctx.max_parts:
+                s2.part = st.part + ((bi, "frombool", val),)          # kept apart like the `(cond) as int` idiom
+            outs.append((E.ctx.const_int(s2, val, dest_ty), s2))
+        except Diverge:
+            pass
+    return outs
 
 
 def m_is_power_of_two(E, st, fr, bi, callee, args, dest_ty):
@@ -2703,6 +2749,8 @@ def build(ctx):
     for _i, _k in (("ctpop", "count_ones"), ("ctlz", "leading_zeros"), ("cttz", "trailing_zeros"), ("ctlz_nonzero", "leading_zeros"), ("cttz_nonzero", "trailing_zeros")):
         A(rf"^(core|std)::intrinsics::{_i}::<[iu]\w+>$", m_int_bits(_k))
     A(r"^(core|std)::num::<impl u\w+>::is_power_of_two$", m_is_power_of_two)
+    A(r"^(core|std)::convert::num::<impl std::convert::From<bool> for [iu]\w+>::from$", m_from_bool)
+    A(r"^<[iu]\w+ as std::convert::From<bool>>::from$", m_from_bool)
     A(r"^(core|std)::f64::<impl f64>::trunc$", m_float_unary("trunc"))
     A(r"^(core|std)::f64::<impl f64>::ceil$", m_float_unary("ceil"))
     A(r"^(core|std)::num::<impl u\w+>::overflowing_sub$", m_overflowing("Sub"))
